@@ -1429,9 +1429,13 @@ func c10Generated(run *common.Run, root string, thorough bool) {
 				if crash := c10CrashText(out, d); crash != "" {
 					found := false
 					for _, g := range sel {
+						if found || !c10Attribute(crash) {
+							break
+						}
 						o1, _ := c10RunWithBound(drv.Req{Driver: d, Dir: dir, Flags: cfg.Flags, Env: c10DriverEnv, Patterns: []string{"./" + g.ID + "/..."}}, c10HangMinimum)
 						if o1 != nil && c10CrashText(o1, d) != "" {
 							found = true
+							c10Attributed(crash)
 							c10ReportCrash(run, g.Shape, c10CrashText(o1, d), c10StackOf(o1), map[string]any{"program": g.P.Text(), "config": cfg.Name, "driver": d.String(), "cmd": o1.Cmd})
 						}
 					}
